@@ -23,7 +23,7 @@ meta = {"id": sid, "property": prop, "repo_head": subprocess.run(['git', '-C', '
 
 def sh(cmd, cwd, timeout=1500):
     try:
-        r = subprocess.run(cmd, cwd=cwd, env=env, capture_output=True, text=True, timeout=timeout, shell=isinstance(cmd, str))
+        r = subprocess.run(cmd, cwd=cwd, env=env, capture_output=True, text=True, errors='replace', timeout=timeout, shell=isinstance(cmd, str))
         return r.returncode, (r.stdout + r.stderr)
     except subprocess.TimeoutExpired:
         return 124, 'timeout'
@@ -60,7 +60,7 @@ try:
         # our check against the patched tree
         os.makedirs(out, exist_ok=True)
         e2 = dict(env, VERIF_REPO=pat, VERIF_OUT=out)
-        r = subprocess.run(['/verif/check', prop, a.tier], env=e2, capture_output=True, text=True, timeout=7200)
+        r = subprocess.run(['/verif/check', prop, a.tier], env=e2, capture_output=True, text=True, errors='replace', timeout=7200)
         vio = [l for l in r.stdout.split('\n') if l.startswith('VIOLATION')]
         sigs = sorted(set(l.split('sig=')[1].split(' ')[0] for l in vio if 'sig=' in l))
         summ = [l for l in r.stdout.split('\n') if l.startswith('SUMMARY') or l.startswith('BUILD') or l.startswith('INCONCLUSIVE')]
